@@ -206,20 +206,36 @@ def run_shard(ctx, idx, path, mode, workers, timeout):
                         env={"OBS": path, "MODE": mode})
 
 
+def stream_obs(path):
+    """observations of one harness output file, one at a time (a truncated line = the harness died = Broken)"""
+    with open(path, errors="replace") as f:
+        for ln in f:
+            ln = ln.strip()
+            if ln:
+                try:
+                    yield json.loads(ln)
+                except Exception:
+                    raise Broken(f"malformed line in {path} (harness aborted?)")
+
+
 def check_observations(ctx, obs, label):
-    """Run all observations through FrameTrace (report mode, sharded), group the failures, confirm each group in strict
-    mode (TLC exit 12 + error trace) and classify it against KNOWN_FINDINGS."""
-    precheck(obs)
+    """Run all observations (an iterable) through FrameTrace (report mode, sharded), group the failures, confirm each group
+    in strict mode (TLC exit 12 + error trace) and classify it against KNOWN_FINDINGS."""
     # two configurations whose observations agree in everything the specification reads are one machine run
-    uniq, seen = [], set()
+    uniq, seen, nobs, orders = [], set(), 0, set()
     for o in obs:
+        nobs += 1
+        precheck([o])
         c = o["cfg"]
         e = eff(c)
+        orders.add(order_of(c))
         k = vlib.digest([c["env"], c["cc"], c["cp"], [e[f] for f in ("ls", "la", "cs", "ca", "fp", "calls")], [sorted(x) for x in e["d"]],
                          o["cc"], o["fd"], o["fr"], o["pro"], o["epi"], o["err"]])
         if k not in seen:
             seen.add(k)
             uniq.append(o)
+    ctx.extra["distinct_stack_setter_orders"] = len(orders)
+    obs = range(nobs)
     ctx.evaluations += len(obs)
     for o in uniq:
         ctx.distinct.add(vlib.digest([o["family"], o["bits"], o["fr"], o["pro"], o["epi"]]))
@@ -299,28 +315,31 @@ def run(ctx):
     rc, _, err = vlib.run_harness(ctx, bdir, "frame", ["script", cp, op], timeout=900)
     if rc != 0:
         raise Broken(f"harness frame script rc={rc}: {err[-600:]}")
-    obs = vlib.read_ndjson(op)
-    if len(obs) != len(cfgs):
-        raise Broken(f"harness answered {len(obs)} of {len(cfgs)} configurations")
     op2 = ctx.path("obs_random.ndjson")
     nrand = 1000 if q else 20000
     rc, _, err = vlib.run_harness(ctx, bdir, "frame", ["random", op2, nrand], timeout=900, env={"VERIF_SEED": ctx.seed})
     if rc != 0:
         raise Broken(f"harness frame random rc={rc}: {err[-600:]}")
-    obs2 = vlib.read_ndjson(op2)
-    ctx.extra["configs_random"] = len(obs2)
     op3 = ctx.path("obs_compiler.ndjson")
     rc, _, err = vlib.run_harness(ctx, bdir, "frame", ["compiler", op3], timeout=300)
     if rc != 0:
         raise Broken(f"harness frame compiler rc={rc}: {err[-600:]}")
-    obs3 = vlib.read_ndjson(op3)
-    ctx.extra["configs_compiler"] = len(obs3)
-    orders = {order_of(o["cfg"]) for o in obs + obs2 + obs3}
-    ctx.extra["distinct_stack_setter_orders"] = len(orders)
-    ctx.log(f"harness: {len(obs)} scripted, {len(obs2)} random, {len(obs3)} Compiler-derived frames; {len(orders)} distinct orders of the stack setters")
-    for o in obs[:2] + obs2[:1] + obs3[:1]:
-        ctx.add_sample(describe(o))
-    check_observations(ctx, obs + obs2 + obs3, "all")
+    counts = {}
+    def all_obs():
+        for tag, path in (("scripted", op), ("random", op2), ("compiler", op3)):
+            n = 0
+            for o in stream_obs(path):
+                n += 1
+                if n <= (2 if tag == "scripted" else 1):
+                    ctx.add_sample(describe(o))
+                yield o
+            counts[tag] = n
+    check_observations(ctx, all_obs(), "all")
+    if counts["scripted"] != len(cfgs):
+        raise Broken(f"harness answered {counts['scripted']} of {len(cfgs)} configurations")
+    ctx.extra["configs_random"], ctx.extra["configs_compiler"] = counts["random"], counts["compiler"]
+    ctx.log(f"harness: {counts['scripted']} scripted, {counts['random']} random, {counts['compiler']} Compiler-derived frames; "
+            f"{ctx.extra['distinct_stack_setter_orders']} distinct orders of the stack setters")
     ctx.assumptions += [
         "harness/frame.cpp executes the recorded setter calls and logs FuncFrame accessors and Builder nodes verbatim (mnemonic, operand shapes); it computes nothing",
         "what a setter sequence promises is FrameMachine!Eff: set_* assigns, update_* takes the maximum, add_dirty adds, set_dirty assigns, set_/reset_ switch an attribute",
